@@ -98,11 +98,18 @@ func Corpus() []*Schema {
 		Messages: []M{{Name: "Holder", Fields: []F{{"label", 1, "string", "opt"}, {"part", 2, "wkt:google.protobuf.UninterpretedOption.NamePart", "opt"},
 			{"parts", 3, "wkt:google.protobuf.UninterpretedOption.NamePart", "rep"}}}}})
 	// a second .proto file with its own Go package whose NAME differs from the last element of its import
-	// path (…/dep/v1;depv1); only the importing file is handed to the generator
-	cs = append(cs, &Schema{ID: "imports", Syntax: "proto3",
+	// path (…/dep/v1;depv1); both files are handed to the generator in ONE request (imported file first)
+	cs = append(cs, &Schema{ID: "imports", Syntax: "proto3", GenDep: true,
 		Dep: &Schema{ID: "importsdep", Syntax: "proto3", Messages: []M{{Name: "D", Fields: []F{{"n", 1, "int32", "opt"}, {"s", 2, "string", "opt"}}}}, Enums: []E{{Name: "Shade", Values: []int32{0, 1, 5}}}},
 		Messages: []M{{Name: "User", Fields: []F{{"id", 1, "int32", "opt"}, {"d", 2, "dep:D", "opt"}, {"ds", 3, "dep:D", "rep"}, {"shade", 4, "depenum:Shade", "opt"}, {"shades", 5, "depenum:Shade", "packed"},
 			{"by", 6, "dep:D", "map:string"}, {"one", 7, "dep:D", "oneof:pick"}, {"other", 8, "depenum:Shade", "oneof:pick"}}}}})
+	// a foreign message type that only its runtime knows how to marshal (for gogo: plain protoc-gen-gogo output with
+	// XXX_Size / XXX_Marshal but no Marshal() / MarshalTo()), in the middle and at the end of the message, in a list,
+	// a map and a oneof
+	cs = append(cs, &Schema{ID: "foreignplain", Syntax: "proto3", Imports: []string{"google/protobuf/descriptor.proto"},
+		Messages: []M{{Name: "Holder", Fields: []F{{"name", 1, "string", "opt"}, {"val", 2, "wkt:google.protobuf.EnumValueDescriptorProto", "opt"}, {"tail", 3, "string", "opt"},
+			{"vals", 4, "wkt:google.protobuf.EnumValueDescriptorProto", "rep"}, {"by", 5, "wkt:google.protobuf.EnumValueDescriptorProto", "map:string"},
+			{"one", 6, "wkt:google.protobuf.EnumValueDescriptorProto", "oneof:pick"}, {"other", 7, "int32", "oneof:pick"}, {"last", 8, "wkt:google.protobuf.EnumValueDescriptorProto", "opt"}}}}})
 	// a file that declares no message at all (an enum only)
 	cs = append(cs, &Schema{ID: "enumonly", Syntax: "proto3", Enums: []E{{Name: "Level", Values: []int32{0, 1, 2}}}})
 	// a proto2 extension whose type is a message / an enum of an imported file
@@ -140,7 +147,9 @@ func Corpus() []*Schema {
 	cs = append(cs, &Schema{ID: "extscope", Syntax: "proto2",
 		Messages: []M{{Name: "Base", Fields: []F{{"id", 1, "int32", "opt"}}, Ranges: [][2]int32{{100, 200}}},
 			{Name: "Outer", Fields: []F{{"n", 1, "int32", "opt"}}, Nested: []M{{Name: "In", Fields: []F{{"s", 1, "string", "opt"}},
-				Ext: []F{{"x_nested", 101, "string", "ext:Base"}}}}}},
+				Ext: []F{{"x_nested", 101, "string", "ext:Base"}},
+				// … and two levels down
+				Nested: []M{{Name: "Deep", Fields: []F{{"v", 1, "int32", "opt"}}, Ext: []F{{"x_deep", 103, "sint32", "ext:Base"}, {"x_deep_b", 104, "bytes", "ext:Base"}}}}}}}},
 		FileExt: []F{{"x_top", 100, "int64", "ext:Base"}, {"x_top_msg", 102, "msg:Outer", "ext:Base"}}})
 	// two messages whose short names coincide when lower-cased: one output file name for both with
 	// filepermessage=true (open finding B15)
